@@ -855,20 +855,14 @@ class C25DataStore(Base):
         from cylc.flow import data_store_mgr as D
         self.n['publishes'] += 1
         if self.mirror is None:
-            # the initial published snapshot: the entire workflow
-            msg = schd.data_store_mgr.get_entire_workflow()
-            wire = type(msg)()
-            wire.ParseFromString(msg.SerializeToString())
+            # a client starts empty: the first published batch is the
+            # initial snapshot (the whole data model as "added" elements)
+            from cylc.flow.data_messages_pb2 import PbWorkflow
             self.mirror = {
-                D.WORKFLOW: wire.workflow,
-                D.TASKS: {e.id: e for e in wire.tasks},
-                D.TASK_PROXIES: {e.id: e for e in wire.task_proxies},
-                D.JOBS: {e.id: e for e in wire.jobs},
-                D.FAMILIES: {e.id: e for e in wire.families},
-                D.FAMILY_PROXIES: {e.id: e for e in wire.family_proxies},
-                D.EDGES: {e.id: e for e in wire.edges},
+                D.WORKFLOW: PbWorkflow(), D.TASKS: {}, D.TASK_PROXIES: {},
+                D.JOBS: {}, D.FAMILIES: {}, D.FAMILY_PROXIES: {},
+                D.EDGES: {},
             }
-            return
         for topic, delta, _ in item:
             if topic != D.ALL_DELTAS.encode():
                 continue
@@ -920,8 +914,10 @@ class C25DataStore(Base):
                            f'{eid}: fields {sorted(diff)} differ between the '
                            'client mirror and the scheduler store',
                            {'id': eid, 'fields': sorted(diff),
-                            'store': str(e)[:600],
-                            'mirror': str(mine[eid])[:600]})
+                            'values': {f: [str(getattr(e, f))[:400],
+                                           str(getattr(mine[eid], f))[:400]]
+                                       for f in sorted(diff)},
+                            'publish_no': self.n['publishes']})
                     return
 
     def after_data_store_update(self, drv, schd):
